@@ -477,3 +477,25 @@ Proof.
   - destruct (s_best s) as [m|] eqn:Em; [|discriminate]. simpl. intros E. inversion E; subst.
     apply s_leaf_infos_in. apply (s_best_is_max s m W Em).
 Qed.
+
+(* fork choice never fails on a reachable state *)
+Lemma get_leaves_nonempty n : exists y, In y (get_leaves n).
+Proof.
+  induction n as [h x a p ch IH] using bnode_ind'. rewrite get_leaves_unfold. simpl.
+  destruct ch as [|d ch]; [exists h; left; auto|]. inversion IH; subst.
+  destruct H1 as (y & Hy). exists y. simpl. apply in_or_app. left. auto.
+Qed.
+
+Lemma sim_best_some t s : sim t s -> exists b, s_best_hash s = Some b.
+Proof.
+  intros (W & E). rewrite <- (seq_best_hash _ _ E (abs_swf t (proj1 W))).
+  unfold s_best_hash. simpl s_blocks. destruct (edges (root t)) eqn:Ee; [eauto|].
+  assert (Hc : nchildren (root t) <> []).
+  { intro Hc. apply abs_edges_nil in Hc. congruence. }
+  destruct (abs_leaf_infos t W Hc) as (P & _ & Hh).
+  destruct (s_best (abs t)) as [m|] eqn:Em; [simpl; eauto|]. exfalso.
+  unfold s_best in Em. apply argmax_nil_iff in Em. rewrite Em in P.
+  apply Permutation_sym, Permutation_nil in P. rewrite P in Hh. simpl in Hh.
+  destruct W as (_ & _ & Hl). rewrite <- Hh in Hl. apply Permutation_nil in Hl.
+  destruct (get_leaves_nonempty (root t)) as (y & Hy). rewrite Hl in Hy. contradiction.
+Qed.
